@@ -94,6 +94,7 @@ func checkC05(c *Ctx, r *Report) {
 	// C05.e requiredness (shared with C06.f)
 	checkRequiredness(c, r, "C05.e")
 	checkWireNameKeys(c, r, "C05.a")
+	checkEngineOnlyRegisters(c, r, "C05.g")
 
 	// C05.f conversion arms cover the primitives validation lets through
 	checkConversionArms(c, r, "C05.f")
@@ -860,5 +861,61 @@ func checkWireNameKeys(c *Ctx, r *Report, clause string) {
 			viol = fmt.Sprintf("%s: only %d wire-name string literals recognised in the parsing partial (floor 4)", en, n)
 		}
 		r.add(clause, "tpl-types", en+":wire-name-keys", en+": every lookup key of the parsing partial is the parameter's wire name as it is", []string{t.File}, []string{t.File + ":1"}, viol)
+	}
+}
+
+// checkEngineOnlyRegisters: how a request's path, query and headers are decoded before the
+// handler reads them is the framework's default behaviour, which the accessor vocabularies of
+// this property were reviewed against. The generated RegisterRoutes therefore only registers
+// handlers on the engine it is given: any other method called on it (UseEncodedPath, SkipClean,
+// StrictSlash, a binder or decoder option, a group with middleware) changes what the accessors
+// return.
+func checkEngineOnlyRegisters(c *Ctx, r *Report, clause string) {
+	for _, en := range c.T.Order {
+		eng := c.T.Engines[en]
+		var methods []string
+		var sites []string
+		scan := func(t *Tpl) {
+			var walk func(p *hast.Program)
+			walk = func(p *hast.Program) {
+				if p == nil {
+					return
+				}
+				for _, st := range p.Body {
+					switch n := st.(type) {
+					case *hast.ContentStatement:
+						ts := goToks(n.Value)
+						for i := 0; i+1 < len(ts); i++ {
+							if ts[i].Lit == "engine" && ts[i+1].Tok == token.PERIOD && (i == 0 || ts[i-1].Tok != token.PERIOD) {
+								m := "<verb from the route>" // the method name is a mustache (`engine.{{HttpVerb}}(`)
+								if i+2 < len(ts) && ts[i+2].Tok == token.IDENT {
+									m = ts[i+2].Lit
+								}
+								methods = append(methods, m)
+								sites = append(sites, tplSite(t, eng, n.Line))
+							}
+						}
+					case *hast.BlockStatement:
+						walk(n.Program)
+						walk(n.Inverse)
+					}
+				}
+			}
+			walk(t.Prog)
+		}
+		scan(eng.Routes)
+		names := make([]string, 0, len(eng.Partials))
+		for nm := range eng.Partials {
+			names = append(names, nm)
+		}
+		sort.Strings(names)
+		for _, nm := range names {
+			scan(eng.Partials[nm])
+		}
+		viol := ""
+		if len(methods) != 1 {
+			viol = fmt.Sprintf("%s: the generated RegisterRoutes calls %v on the engine; expected the route registration only: an option set on the router changes how paths, queries or headers reach the accessors this property's rules were reviewed against", en, methods)
+		}
+		r.add(clause, "tpl-types", en+":engine-only-registers", en+": nothing but the route registration is called on the engine", []string{eng.Routes.File}, sites, viol)
 	}
 }
